@@ -140,7 +140,7 @@ func searchMode(t *testing.T) {
 	states := map[string]bool{}
 	trig := map[string]bool{}
 	nt := map[string]bool{}
-	var simTime time.Duration
+	var simTime float64 // seconds (a Duration sum overflows: single runs may cover decades of simulated time)
 	for r, k := *fFrom, uint64(0); k < *fMaxRuns; r, k = r+*fStride, k+1 {
 		if time.Since(start).Seconds() > *fBudget {
 			break
@@ -155,7 +155,7 @@ func searchMode(t *testing.T) {
 		out.Runs++
 		out.Steps += res.Stats.Steps
 		out.Commits += res.Stats.Commits
-		simTime += res.Stats.SimTime
+		simTime += res.Stats.SimTime.Seconds()
 		for k, v := range res.Stats.Faults {
 			out.Faults[k] += v
 		}
@@ -208,7 +208,7 @@ func searchMode(t *testing.T) {
 		}
 	}
 	out.WallS = time.Since(start).Seconds()
-	out.SimTimeS = simTime.Seconds()
+	out.SimTimeS = simTime
 	out.States = len(states)
 	out.Trigrams = len(trig)
 	for k := range nt {
